@@ -10,10 +10,14 @@
 (* Subset: i32 constants / arithmetic / comparison, locals, globals,       *)
 (* drop / select, block / loop / if / else, br / br_if / br_table /        *)
 (* return / unreachable / nop, call / call_indirect, i32 and i8 loads and  *)
-(* stores on several memories, memory.size, imported functions (recorded   *)
-(* as a host-call trace, results determined by the trace), instantiation   *)
-(* (global initialisers, active element and data segments with bounds      *)
-(* traps, start function).                                                 *)
+(* stores on several memories, memory.size / grow / copy / fill / init,    *)
+(* data.drop, table.size / copy / init / get / set / fill / grow,          *)
+(* elem.drop, ref.null / ref.func / ref.is_null over several tables,       *)
+(* imported functions (recorded as a host-call trace, results determined   *)
+(* by the trace), instantiation (global initialisers, active element and   *)
+(* data segments with bounds traps, passive / declared segments and their  *)
+(* dropped state, a local or imported start function).  Growth of tables   *)
+(* and memories is capped at 64 (entries / pages) in both runs.            *)
 (*                                                                         *)
 (* Values live in Z / 2^15 (TLC integers are 32 bit and overflow-checked); *)
 (* both programs run under the *same* semantics, which is all a            *)
@@ -249,6 +253,27 @@ Step ==
                  ELSE /\ st' = DropN(st, 3) /\ frs' = SetK(Rest)
                       /\ tab' = [tab EXCEPT ![d] = [x \in DOMAIN tab[d] |-> IF x > dst /\ x <= dst + n THEN from[x - dst + src] ELSE tab[d][x]]]
                       /\ UNCHANGED <<c, w, phase, ci, gl, mem, msize, dropped, log, res, status, fuel, inst, obsIn>>
+         \* ---- reference instructions: a function reference is the function's number in the running program (0 = null);
+         \* it can only reach tables and ref.is_null (signatures, locals and globals of the subset are i32)
+         [] o = "RefNull" -> Pure(Append(st, 0))
+         [] o = "RefFunc" -> Pure(Append(st, ins.f + 1))
+         [] o = "RefIsNull" -> Pure(Append(DropN(st, 1), IF top = 0 THEN 1 ELSE 0))
+         [] o = "TableGet" -> IF top >= Len(tab[ins.t + 1]) THEN Trap ELSE Pure(Append(DropN(st, 1), tab[ins.t + 1][top + 1]))
+         [] o = "TableSet" -> LET i == st[Len(st) - 1] IN
+                              IF i >= Len(tab[ins.t + 1]) THEN Trap
+                              ELSE /\ st' = DropN(st, 2) /\ frs' = SetK(Rest) /\ tab' = [tab EXCEPT ![ins.t + 1][i + 1] = top]
+                                   /\ UNCHANGED <<c, w, phase, ci, gl, mem, msize, dropped, log, res, status, fuel, inst, obsIn>>
+         [] o = "TableFill" -> LET n == top  v == st[Len(st) - 1]  i == st[Len(st) - 2]  d == ins.t + 1 IN
+                               IF i + n > Len(tab[d]) THEN Trap
+                               ELSE /\ st' = DropN(st, 3) /\ frs' = SetK(Rest)
+                                    /\ tab' = [tab EXCEPT ![d] = [x \in DOMAIN tab[d] |-> IF x > i /\ x <= i + n THEN v ELSE tab[d][x]]]
+                                    /\ UNCHANGED <<c, w, phase, ci, gl, mem, msize, dropped, log, res, status, fuel, inst, obsIn>>
+         [] o = "TableGrow" -> LET n == top  v == st[Len(st) - 1]  d == ins.t + 1 IN
+                               IF Len(tab[d]) + n > Prog.tables[d].max
+                               THEN Pure(Append(DropN(st, 2), M - 1))
+                               ELSE /\ st' = Append(DropN(st, 2), Len(tab[d])) /\ frs' = SetK(Rest)
+                                    /\ tab' = [tab EXCEPT ![d] = tab[d] \o [x \in 1..n |-> v]]
+                                    /\ UNCHANGED <<c, w, phase, ci, gl, mem, msize, dropped, log, res, status, fuel, inst, obsIn>>
          [] o = "ElemDrop" -> /\ dropped' = [dropped EXCEPT !.elem = @ \cup {ins.seg + 1}] /\ st' = st /\ frs' = SetK(Rest)
                               /\ UNCHANGED <<c, w, phase, ci, gl, mem, msize, tab, log, res, status, fuel, inst, obsIn>>
          [] o = "Unreachable" -> Trap
